@@ -1,7 +1,7 @@
 (* Correspondence cases for C34: the harness records what sop.Authorize, sop.CheckPolicy,
    sop.EnforcePolicy, sop.CanPerformAction, sop.IsSystemReadOnly, sop.ActionToUICapability and
    sop.ResolveRBACMap returned; c34_check evaluates the model on the same input and compares. *)
-From Coq Require Import List NArith Bool.
+From Coq Require Import List NArith Bool Ascii String.
 From SopVerif Require Import Gen.RbacConsts Rbac.
 Import ListNotations.
 
@@ -70,6 +70,12 @@ Inductive c34case :=
    impl = the returned map, sorted by key *)
 (* consistency of the vocabulary table: (name used, byte list meant) *)
 | VocabCase (l : list (str * str))
+(* the enumerated domain, one resource name and one ACL at a time: impl holds, for every caller of
+   enum_callers in order and every action of enum_actions in order, one character whose code is
+   48 + the decision code (a string literal is the cheapest thing for coqc to parse) *)
+| EnumCase (name : str) (acc : access) (impl_readonly : bool) (impl : string)
+(* the harness's caller and action lists of the enumerated domain are enum_callers / enum_actions *)
+| EnumDomainCase (callers : list caller) (actions : list str)
 | MapCase (c : caller) (asset : str) (local : option access) (registered : bool) (acts : list str)
           (ev : option (list (str * bool))) (impl : list (str * bool)).
 
@@ -87,9 +93,34 @@ Definition opt_bool_eqb (a : option bool) (b : bool) : bool :=
 (* equal as finite maps: same number of keys (the model's keys are distinct by construction of
    map_set, the implementation's because it is a Go map) and every implementation binding is in the model *)
 Definition map_eq (model impl : list (str * bool)) : bool :=
-  Nat.eqb (length model) (length impl)
+  Nat.eqb (List.length model) (List.length impl)
   && forallb (fun kv => opt_bool_eqb (lookup (fst kv) model) (snd kv)) impl
   && forallb (fun kv => opt_bool_eqb (lookup (fst kv) impl) (snd kv)) model.
+
+(* ---- the enumerated domain (harness: enumInput) *)
+Definition enum_role_subsets : list (list str) :=
+  [ []; [v7]; [v8]; [v7; v8]; [v10]; [v7; v10]; [v8; v10]; [v7; v8; v10] ].
+Definition enum_callers : list caller :=
+  flat_map (fun sys => flat_map (fun roles => map (fun u => mkCaller u roles sys) [v0; v1; v2]) enum_role_subsets)
+           [false; true].
+Definition enum_actions : list str := [v29; v30; v31; v32; v33; v34; v5].
+
+Definition b2n (b : bool) : N := if b then 1%N else 0%N.
+(* Authorize + 2 CanPerformAction + 4 code(CheckPolicy) + 16 code(EnforcePolicy) *)
+Definition decision_code (c : caller) (name : str) (acc : access) (a : str) : N :=
+  let v := verdict_code (check_policy c name acc a) in
+  (b2n (authorize c acc a) + 2 * b2n (can_perform c name acc a) + 4 * v + 16 * v)%N.
+Definition codes_of_string (s : string) : list N :=
+  map (fun a => (N_of_ascii a - 48)%N) (list_ascii_of_string s).
+
+Fixpoint list_eqb {A : Type} (eqb : A -> A -> bool) (a b : list A) : bool :=
+  match a, b with
+  | [], [] => true
+  | x :: a', y :: b' => eqb x y && list_eqb eqb a' b'
+  | _, _ => false
+  end.
+Definition caller_eqb (a b : caller) : bool :=
+  str_eqb (c_user a) (c_user b) && list_eqb str_eqb (c_roles a) (c_roles b) && Bool.eqb (c_system a) (c_system b).
 
 Definition asset_type : str := [116%N]. (* "t" *)
 
@@ -98,6 +129,12 @@ Definition c34_check (k : c34case) : bool :=
   | PolicyCase c name acc ro outs =>
       Bool.eqb (is_system_readonly name) ro && forallb (out_ok c name acc) outs
   | VocabCase l => forallb (fun p => str_eqb (fst p) (snd p)) l
+  | EnumCase name acc ro impl =>
+      Bool.eqb (is_system_readonly name) ro
+      && list_eqb N.eqb (flat_map (fun c => map (decision_code c name acc) enum_actions) enum_callers) (codes_of_string impl)
+      && forallb (fun a => N.leb 48 (N_of_ascii a)) (list_ascii_of_string impl)
+  | EnumDomainCase callers actions =>
+      list_eqb caller_eqb enum_callers callers && list_eqb str_eqb enum_actions actions
   | MapCase c asset local registered acts ev impl =>
       let bp := mkBlueprint acts (match ev with Some t => Some (table_eval t) | None => None end) in
       let reg := if registered then register asset_type bp [] else [] in
